@@ -291,12 +291,32 @@ Definition cells_for (rows : list Z) (set : list assignment) : list cell :=
 
 Record outcome := mk_outcome { out_cells : list cell; out_err : bool }.
 
+(* checkMissingWhereConditions: an UPDATE with neither a chain condition nor a key in the model value
+   stops with ErrMissingWhereClause *)
+Definition no_condition (mk : mkey) (where_ids : option (list Z)) : bool :=
+  match where_ids with
+  | Some _ => false
+  | None => match mk with
+            | MStruct m => forallb (Z.eqb 0) m
+            | MSlice l => forallb (Z.eqb 0) l
+            end
+  end.
+
 (* UPDATE ... SET set WHERE rows.  Writing the key of two rows to the same value violates UNIQUE. *)
 Definition do_update (s : schema) (rows : list Z) (set : list assignment) : outcome :=
   let set' := canon s set in
   if existsb (fun a => String.eqb (fst a) (key_name s)) set' && (1 <? Z.of_nat (length rows))
   then mk_outcome [] true
   else mk_outcome (cells_for rows set') false.
+
+(* the Update callback: an empty SET list ends the callback before anything else; otherwise a statement
+   without any condition is refused (ErrMissingWhereClause) *)
+Definition guarded_update (s : schema) (mk : mkey) (where_ids : option (list Z)) (rows : list Z)
+           (set : list assignment) : outcome :=
+  match set with
+  | [] => mk_outcome [] false
+  | _ => if no_condition mk where_ids then mk_outcome [] true else do_update s rows set
+  end.
 
 (* new rows are numbered 1001, 1002, ... in key order *)
 Fixpoint new_rows (s : schema) (forced : list string) (fs : list field) (ps : list payload) (n : Z) : list cell :=
@@ -341,10 +361,12 @@ Definition run_op (s : schema) (table : string) (o : op) (selects omits : list s
   let rows := targeted stored model_key where_ids in
   match o with
   | OCreate | OCreateBatch =>
+      match ps with [] => mk_outcome [] true | _ =>     (* ErrEmptySlice *)
       let sm := select_and_omit s table selects omits true false in
       let fs := create_fields s sm ps in
       if default_placeholder_error fs ps then mk_outcome [] true
       else mk_outcome (new_rows s [] (sort_fields s fs) ps 1001) false
+      end
   | OCreateMap =>
       let sm := select_and_omit s table selects omits true false in
       let cols := create_map_cols s sm p in
@@ -352,6 +374,7 @@ Definition run_op (s : schema) (table : string) (o : op) (selects omits : list s
                       (filter (fun a => negb (String.eqb (fst a) (key_name s)))
                               (canon s (map (fun c => (c, KPay)) cols)))) false
   | OCreateMaps =>
+      match ps with [] => mk_outcome [] true | _ =>     (* ErrEmptySlice *)
       (* every map of the batch names the same fields (domain), in column or field spelling: the
          column list is the union of the keys resolved by LookUpField and filtered by the select map *)
       let sm := select_and_omit s table selects omits true false in
@@ -359,6 +382,7 @@ Definition run_op (s : schema) (table : string) (o : op) (selects omits : list s
                         (canon s (map (fun c => (c, KPay)) (create_map_cols s sm p))) in
       mk_outcome (List.concat (map (fun n => map (fun a => mk_cell n (fst a) (snd a)) set)
                                    (map (fun i => 1001 + Z.of_nat i) (seq 0 (length ps))))) false
+      end
   | OFocAssign =>
       (* FirstOrCreate, found + Assign: tx.Model(dest).Updates(assigns) — a hook-running map update
          pinned to the key of the FOUND record (the first matching row in key order), whatever Model
@@ -382,12 +406,12 @@ Definition run_op (s : schema) (table : string) (o : op) (selects omits : list s
                  upsert s table selects' omits ids forced OUpsertAll p
              | _ => mk_outcome [] false
              end
-  | OUpdatesStruct =>
-      do_update s rows (assign_struct s (select_and_omit s table selects omits false true) false false p)
-  | OUpdateColumnsStruct =>
-      do_update s rows (assign_struct s (select_and_omit s table selects omits false true) true false p)
-  | OUpdatesMap =>
-      do_update s rows (assign_map s (select_and_omit s table selects omits false true) false p)
-  | OUpdateColumnsMap =>
-      do_update s rows (assign_map s (select_and_omit s table selects omits false true) true p)
+  | OUpdatesStruct => guarded_update s model_key where_ids rows
+      (assign_struct s (select_and_omit s table selects omits false true) false false p)
+  | OUpdateColumnsStruct => guarded_update s model_key where_ids rows
+      (assign_struct s (select_and_omit s table selects omits false true) true false p)
+  | OUpdatesMap => guarded_update s model_key where_ids rows
+      (assign_map s (select_and_omit s table selects omits false true) false p)
+  | OUpdateColumnsMap => guarded_update s model_key where_ids rows
+      (assign_map s (select_and_omit s table selects omits false true) true p)
   end.
